@@ -312,6 +312,25 @@ impl Prop for C17 {
         if c.hash_seed % 6 != 4 {
             return None;
         }
+        if c.hash_seed % 12 == 4 {
+            // a close relative: the same file but for one digit of a coefficient (same path, same length, same names)
+            let mut s = c.clone();
+            let bump = |f: &mut crate::model::lp::F| f.0 = if f.0.abs() >= 1.0 && f.0.abs() < 8.0 { f.0 + f.0.signum() } else { f.0 };
+            for col in &mut s.model.cols {
+                if let Some(o) = &mut col.obj {
+                    bump(o);
+                }
+                for e in &mut col.entries {
+                    bump(&mut e.1);
+                }
+            }
+            for r in &mut s.model.rows {
+                if let Some(v) = &mut r.rhs {
+                    bump(v);
+                }
+            }
+            return Some(s);
+        }
         Some(self.gen(&mut Rng::new(c.hash_seed ^ 0x51B1_1B15), Tier::Quick, 0))
     }
 
